@@ -6,12 +6,19 @@ Request lines: `bm <p> <s0,s1,...>` and `bm_big <p> <s0,...>` -> `panic` | `-` |
 (harness/src/ops_bm.rs, lean/Ymq/Drv/BerlekampMassey.lean).
 
 Wiring (props/c19.py): `import props.c19_bm as bm`;
-  cases:        `yield from bm.cases(tier, rng, extended)`
+  cases:        `yield from bm.cases(tier, rng, extended)`   (a list of Case; K restricted to the chk profile outside the proved domain)
   oracle:       `if case.op in bm.OPS: return bm.oracle(case, ans)`
   klass:        `if case.op in bm.OPS: return bm.klass(case, ans)`
   nontrivial:   `if case.op in bm.OPS: return bm.nontrivial(case, ans)`
   finding_key:  `if case.op in bm.OPS: return bm.finding_key(case, ans, profile)`
-  LEAN += bm.LEAN; AUDIT: also build bm.AUDIT; THEOREMS += bm.THEOREMS; MODELLED += bm.MODELLED; ...
+  LEAN += bm.LEAN; THEOREMS += bm.THEOREMS; MODELLED += bm.MODELLED; UNMODELLED += bm.UNMODELLED; RULE += bm.RULE_BM;
+  audit: copy the `#print axioms` lines of lean/Ymq/Audit/C19BM.lean (and its import) into lean/Ymq/Audit/C19.lean;
+  corpus: copy corpus/C19_BM/witnesses.txt to corpus/C19/bm.txt.
+  known_findings.json: the oracle reports the panics on the empty sequence and on [a,0,...,0] under the recorded key
+  `sparse-det-degenerate-sequence-panic`, and wrong release answers for primes >= 2^63 under the new key
+  `bm-64bit-prime-wrong-in-release`.
+The module also runs on its own: `./check C19_BM` (then the two finding classes above show up as VIOLATION because
+known_findings.json lists findings per property id).
 """
 import itertools
 from vlib.pipeline import Case
@@ -22,7 +29,7 @@ LEAN = ["Ymq.Props.C19BM"]
 AUDIT = "Ymq.Audit.C19BM"
 THEOREMS = ["Ymq.C19BM." + t for t in (
     "bm_montgomery_ops bm_big_ops bm_invariant_init bm_invariant bm_sound bm_big_sound bm_window_not_from_degree "
-    "bm_degree_bound_tight bm_no_panic_iff bm_big_no_panic_iff bm_empty_iff bm_no_panic bm_big_no_panic "
+    "bm_degree_bound_tight bm_no_panic_iff bm_big_no_panic_iff bm_empty_iff bm_big_empty_iff bm_no_panic bm_big_no_panic "
     "bm_no_panic_recurrence bm_panic_empty bm_panic_single_term bm_panic_zero_constant_term").split()]
 W = 1 << 64
 LIM64 = 1 << 63          # the Montgomery variant is proved for odd primes below 2^63
